@@ -26,6 +26,73 @@ fn inconsistent(a: &Q, b: &Q) -> bool {
     later.live < earlier.live || later.pay < earlier.pay
 }
 
+/// One level above the driver: quotes reach a node as batches (`NetworkEvent::QuoteVerification`: the quotes a client
+/// collected for one address, this node's own among them), and the node hands the driver only those it considers its
+/// duty — same address, another peer, signed by the claimed peer, issued within 10 s of its own quote, on either side.
+/// For a fresh peer per case: a reference batch and, two minutes later, a second batch; the peer's quote is dated
+/// -8 .. +8 s around the node's own quote in each batch; the second quote reports less uptime, fewer payments, or more
+/// of both. The peer must end up flagged exactly when its later quote reports less. Quotes dated outside the window
+/// (12 s either side) are not the node's duty and must not lead to a flag.
+fn node_layer(run: &Run) -> (u64, u64) {
+    use ant_networking::NetworkEvent;
+    let root = mc_core::scratch_root().join("c13-node-layer");
+    let stub = std::sync::Arc::new(crate::evm_stub::EvmStub::start());
+    let mut rig = crate::node_rig::NodeRig::new(1, &root, stub);
+    let me = rig.d.peer_id();
+    let content = XorName::from_content(b"c13 node layer");
+    let now = SystemTime::now();
+    let shift = |t: SystemTime, d: i64| if d >= 0 { t + Duration::from_secs(d as u64) } else { t - Duration::from_secs((-d) as u64) };
+    let inside: [i64; 4] = [-8, -1, 1, 8];
+    let later: [(u64, usize, bool, &str); 3] = [(200, 6, true, "less uptime"), (300, 5, true, "fewer payments"), (400, 7, false, "more of both")];
+    let mut signer = 60u8;
+    let (mut cases, mut deliveries) = (0u64, 0u64);
+    let mut deliver = |rig: &mut crate::node_rig::NodeRig, own_ts: SystemTime, peer_signer: u8, d: i64, live: u64, pay: usize| {
+        let own = rigs::records::quote_reporting(1, content, own_ts, 1000, 50);
+        let theirs = rigs::records::quote_reporting(peer_signer, content, shift(own_ts, d), live, pay);
+        let node = rig.node.clone();
+        let ev = NetworkEvent::QuoteVerification { quotes: vec![(me, own), (rigs::fixtures::peer_id(peer_signer), theirs)] };
+        let dr = &mut rig.d;
+        let _ = dr.exec.capture(None, "node-event", || node.handle_network_event(ev));
+        rig.d.settle();
+    };
+    let mut plans: Vec<(i64, i64, u64, usize, Option<bool>, String)> = vec![];
+    for d1 in inside {
+        for d2 in inside {
+            for (live, pay, less, what) in later {
+                plans.push((d1, d2, live, pay, Some(less), format!("reference dated {d1:+} s, later quote dated {d2:+} s around the node's own, reporting {what}")));
+            }
+        }
+    }
+    for d in [-12i64, 12] {
+        // outside the window in the second batch: not this node's duty
+        plans.push((1, d, 200, 5, None, format!("later quote dated {d:+} s from the node's own (outside its 10 s window), reporting less")));
+    }
+    for (d1, d2, live, pay, expect, what) in plans {
+        signer += 1;
+        cases += 1;
+        let peer = rigs::fixtures::peer_id(signer);
+        run.case(format!("node-layer:{what}").as_bytes(), true);
+        deliver(&mut rig, now - Duration::from_secs(300), signer, d1, 300, 6);
+        let after_first = rig.d.driver.verif_node_issues(&peer).0.len();
+        deliver(&mut rig, now - Duration::from_secs(180), signer, d2, live, pay);
+        deliveries += 2;
+        let flagged = rig.d.driver.verif_node_issues(&peer).0.len() > after_first;
+        let w = json!({"engine": "node layer", "case": what});
+        if after_first > 0 {
+            run.violation("consistent-quote-not-flagged", "node-layer/first-quote", format!("{what}: the peer was flagged on its first quote"), w.clone());
+        }
+        match expect {
+            Some(true) if !flagged => run.violation("inconsistent-history-flagged", "node-layer/not-flagged", format!("{what}: both quotes were this node's duty, the later one reports less, the peer was not flagged"), w),
+            Some(false) | None if flagged => run.violation("consistent-quote-not-flagged", "node-layer/flagged", format!("{what}: the peer was flagged"), w),
+            _ => {}
+        }
+        run.outcome(format!("node-layer:{expect:?}:{flagged}").as_bytes());
+    }
+    drop(rig);
+    let _ = std::fs::remove_dir_all(&root);
+    (cases, deliveries)
+}
+
 pub fn main(tier: Option<&str>) {
     let run = Run::new("C13-driver", "model_checking", tier);
     // ages on both sides of the one-hour validity window: a reference quote does not stop being "an earlier one" by expiring
@@ -111,6 +178,9 @@ pub fn main(tier: Option<&str>) {
             });
         });
     }
+    let (node_cases, node_deliveries) = node_layer(&run);
+    seq_no += node_cases;
+    executions += node_deliveries;
     run.count("states", seq_no);
     run.count("transitions", executions);
     let violations = run.dump_violations();
